@@ -123,7 +123,7 @@ def base_weights(nc):
 # -------------------------------------------------------------------------------------------------
 # building an object of the grammar through the public API
 # -------------------------------------------------------------------------------------------------
-def build(A, kind, shape, over, seed):
+def build(A, kind, shape, over, seed, tag=None):
     """kind: 'mol' | 'ens' | 'conf' (a Conformer view of an ensemble).  shape = (na, nb, nc).
     over = {dimension: value name}.  Returns the object to store."""
     na, nb, nc = shape
@@ -190,6 +190,8 @@ def build(A, kind, shape, over, seed):
                 if d in over:
                     kw[f] = _fresh(A[d][over[d]])
         obj.connect(e1, e2, **kw)
+    if tag is not None:
+        obj.name = f"{obj.name}{tag}"  # makes the stored record byte-unique for this case
     if kind == "conf":
         return obj[fc]
     return obj
@@ -207,6 +209,17 @@ def _fresh(v):
 # -------------------------------------------------------------------------------------------------
 # the harness's own walker
 # -------------------------------------------------------------------------------------------------
+def _deep(v):
+    """a snapshot owns its values (the object may be changed in place afterwards)"""
+    if isinstance(v, dict):
+        return {k: _deep(x) for k, x in v.items()} if v else {}
+    if isinstance(v, list):
+        return [_deep(x) for x in v]
+    if isinstance(v, tuple):
+        return tuple(_deep(x) for x in v)
+    return v
+
+
 def snapshot(obj):
     d = {}
     is_ens = isinstance(obj, ConformerEnsemble)
@@ -214,7 +227,7 @@ def snapshot(obj):
     d["mol.name"] = obj.name
     d["mol.charge"] = obj.charge
     d["mol.mult"] = obj.mult
-    d["mol.attrib"] = obj.attrib
+    d["mol.attrib"] = _deep(obj.attrib)
     atoms = list(obj.atoms)
     bonds = list(obj.bonds)
     d["n_atoms"] = obj.n_atoms
@@ -222,11 +235,11 @@ def snapshot(obj):
     d["len(atoms)"] = len(atoms)
     d["len(bonds)"] = len(bonds)
     for f in ATOM_FIELDS:
-        d["atom." + f] = [getattr(a, f) for a in atoms]
+        d["atom." + f] = [_deep(getattr(a, f)) for a in atoms] if f == "attrib" else [getattr(a, f) for a in atoms]
     pos = {id(a): i for i, a in enumerate(atoms)}
     d["bond.ends"] = [(pos.get(id(b.a1)), pos.get(id(b.a2))) for b in bonds]
     for f in BOND_FIELDS:
-        d["bond." + f] = [getattr(b, f) for b in bonds]
+        d["bond." + f] = [_deep(getattr(b, f)) for b in bonds] if f == "attrib" else [getattr(b, f) for b in bonds]
     c = np.array(obj.coords)
     q = np.array(obj.atomic_charges)
     d["coords.shape"] = tuple(c.shape)
@@ -787,6 +800,253 @@ def eval_seq(ctx, A, sc, seed, libs=None):
 
 
 # -------------------------------------------------------------------------------------------------
+# repeated retrieval: what is stored reads back equal EVERY time, whatever was done to an object
+# retrieved earlier (and whatever is done to the source object after it was stored)
+# -------------------------------------------------------------------------------------------------
+_RICH = {"mol.name": "plain", "mol.charge": "-2", "mol.mult": "3", "mol.attrib": "nested", "atom.attrib": "nested", "atom.label": "C1", "atom.isotope": "13", "atom.formal_charge": "1", "bond.attrib": "flat", "bond.btype": "Aromatic", "bond.label": "space"}
+REGET_OBJS = [
+    {"kind": "mol", "shape": [3, 2, 1], "over": dict(_RICH)},
+    {"kind": "mol", "shape": [1, 0, 1], "over": {}},
+    {"kind": "conf", "shape": [2, 1, 2], "over": {"mol.attrib": "flat", "atom.attrib": "flat", "mol.name": "plain"}},
+    {"kind": "ens", "shape": [3, 2, 2], "over": dict(_RICH, **{"weights.val": "-1.5"})},
+    {"kind": "ens", "shape": [1, 0, 1], "over": {}},
+]
+READ_ROUTES = ["same-session", "new-session", "new-handle", "second-key", "second-file", "items"]
+WRITE_ROUTES = ["source-mutated-after-put", "reput-after-mutation"]
+
+
+_UNIQ = 0  # per-process counter: a replayed case never stores the bytes of an earlier execution
+
+
+def mutate(o, stage):
+    """change, in place, everything the property lists (stage 1 and stage 2 write different values)"""
+    o.name = f"mutated{stage}"
+    o.charge = 7 + stage
+    o.mult = 5 + stage
+    _mutate_attrib(o.attrib, stage)
+    for a in o.atoms:
+        a.element = "Xe" if stage == 1 else "Kr"
+        a.isotope = 99 + stage
+        a.label = f"m{stage}"
+        a.atype = AtomType.Dummy if stage == 1 else AtomType.LonePair
+        a.stereo = AtomStereo.S if stage == 1 else AtomStereo.Delta
+        a.geom = AtomGeom.R6 if stage == 1 else AtomGeom.R5
+        a.formal_charge = 5 + stage
+        a.formal_spin = 3 + stage
+        _mutate_attrib(a.attrib, stage)
+    for b in o.bonds:
+        b.a1, b.a2 = b.a2, b.a1
+        b.label = f"mb{stage}"
+        b.btype = BondType.Triple if stage == 1 else BondType.H_Donor
+        b.stereo = BondStereo.E if stage == 1 else BondStereo.Axial_S
+        b.f_order = 2.5 + stage
+        _mutate_attrib(b.attrib, stage)
+    o.coords[...] = 90.0 + stage
+    o.atomic_charges[...] = 80.0 + stage
+    if isinstance(o, ConformerEnsemble):
+        o.weights[...] = 70.0 + stage
+    if o.n_atoms >= 2:
+        o.connect(0, o.n_atoms - 1, label=f"extra{stage}")
+
+
+def _mutate_attrib(d, stage):
+    for v in list(d.values()):
+        if isinstance(v, dict):
+            _mutate_attrib(v, stage)
+        elif isinstance(v, list):
+            v.append(f"mut{stage}")
+    d[f"mut{stage}"] = stage
+    for k in list(d):
+        if not k.startswith("mut") and not isinstance(d[k], (dict, list)):
+            d[k] = f"overwritten{stage}"
+
+
+def gen_reget_cases(A, thorough):
+    out = []
+    for spec in REGET_OBJS:
+        for route in READ_ROUTES + ([] if spec["kind"] == "conf" else WRITE_ROUTES):
+            out.append({"mode": "reget", "spec": spec, "route": route})
+    if thorough:
+        for kind, shape in (("mol", [3, 2, 1]), ("ens", [3, 2, 2]), ("conf", [3, 2, 2])):
+            for d in A:
+                if kind == "mol" and d in ENS_ONLY:
+                    continue
+                for v in A[d]:
+                    if d == "nc" and (kind == "conf" and A[d][v] == 0):
+                        continue
+                    for route in ("same-session", "new-handle"):
+                        out.append({"mode": "reget", "spec": {"kind": kind, "shape": shape, "over": {d: v}}, "route": route})
+    for n, c in enumerate(out):
+        c["n"] = n
+    return out
+
+
+def _reget_one(libs, A, rc, enc, seed):
+    """-> (symptom or None, outcome digest, transitions); None also when the plain first retrieval is
+    already wrong (that is the round-trip dimension's finding, not this one's)"""
+    spec, route = rc["spec"], rc["route"]
+    lib = LIB_OF[spec["kind"]]
+    # every case stores a record that no other case stores (a memo keyed by the record's bytes
+    # must not let one case contaminate the next); "twin" is a second, byte-identical object
+    global _UNIQ
+    _UNIQ += 1
+    tag = f"#{route}#{enc}#{rc.get('n', 0)}#{_UNIQ}"
+    obj = build(A, spec["kind"], tuple(spec["shape"]), spec["over"], seed, tag=tag)
+    twin = build(A, spec["kind"], tuple(spec["shape"]), spec["over"], seed, tag=tag)
+    exp = snapshot(obj)
+    conf = spec["kind"] == "conf"
+    path = libs.new_path(lib, enc)
+    path2 = libs.new_path(lib, enc)
+    ntr = 0
+    try:
+        hw = libs.open(lib, path, readonly=False)
+        check_version(hw, enc)
+        with hw.writing(timeout=10):
+            hw["k"] = obj
+            hw["k2"] = twin
+            ntr += 2
+        if route == "second-file":
+            hw2 = libs.open(lib, path2, readonly=False)
+            with hw2.writing(timeout=10):
+                hw2["k"] = twin
+                ntr += 1
+        if route in WRITE_ROUTES:
+            mutate(obj, 1)
+            exp3 = snapshot(obj)
+            if route == "reput-after-mutation":
+                with hw.writing(timeout=10):
+                    hw["k3"] = obj
+                    ntr += 1
+            hr = libs.open(lib, path, readonly=True)
+            with hr.reading(timeout=10):
+                r = hr["k"]
+                ntr += 1
+                d1 = compare(exp, snapshot(r), enc, conf_source=conf)
+                d3 = []
+                if route == "reput-after-mutation":
+                    r3 = hr["k3"]
+                    ntr += 1
+                    d3 = compare(exp3, snapshot(r3), enc, conf_source=conf)
+            if d1:
+                return "stored-record-follows-later-changes-of-the-source-object", ("w", tuple(s for _, s in d1)), ntr
+            if d3:
+                return "second-put-of-the-changed-object-stores-the-old-state", ("w3", tuple(s for _, s in d3)), ntr
+            return None, ("ok",), ntr
+        hr = libs.open(lib, path, readonly=True)
+        check_version(hr, enc)
+        cm = hr.reading(timeout=10)
+        cm.__enter__()
+        state = {"open": True}
+
+        def close_first():
+            if state["open"]:
+                state["open"] = False
+                cm.__exit__(None, None, None)
+
+        def fetch():
+            if route == "same-session":
+                return hr["k"]
+            if route == "second-key":
+                return hr["k2"]
+            if route == "items":
+                return dict(hr.items())["k"]
+            close_first()
+            if route == "new-session":
+                with hr.reading(timeout=10):
+                    return hr["k"]
+            h3 = libs.open(lib, path2 if route == "second-file" else path, readonly=True)
+            with h3.reading(timeout=10):
+                return h3["k"]
+
+        try:
+            r1 = hr["k"]
+            ntr += 1
+            if compare(exp, snapshot(r1), enc, conf_source=conf):
+                return None, ("first-get-differs",), ntr
+            mutate(r1, 1)
+            r2 = fetch()
+            ntr += 1
+            same = r2 is r1
+            d1 = compare(exp, snapshot(r2), enc, conf_source=conf)
+            if same or d1:
+                return "returns-previously-mutated-object", ("same" if same else "mutated", tuple(s for _, s in d1)), ntr
+            mutate(r1, 2)
+            d2 = compare(exp, snapshot(r2), enc, conf_source=conf)
+            if d2:
+                return "shares-mutable-state-with-earlier-retrieval", ("shared", tuple(f for f, _ in d2)), ntr
+            # ... and once more: the second retrieval is changed, a third one must still be the original
+            keep = digest(snapshot(r2))
+            mutate(r2, 1)
+            r3 = fetch()
+            ntr += 1
+            d3 = compare(exp, snapshot(r3), enc, conf_source=conf)
+            if r3 is r2 or r3 is r1 or d3:
+                return "returns-previously-mutated-object", ("third", tuple(s for _, s in d3)), ntr
+            mutate(r2, 2)
+            mutate(r1, 1)
+            d4 = compare(exp, snapshot(r3), enc, conf_source=conf)
+            if d4:
+                return "shares-mutable-state-with-earlier-retrieval", ("shared3", tuple(f for f, _ in d4)), ntr
+            return None, ("ok", keep), ntr
+        finally:
+            close_first()
+    finally:
+        libs.done()
+
+
+def eval_reget(ctx, A, rc, seed, libs=None):
+    libs = libs or Libs(ctx.scratch)
+    spec, route = rc["spec"], rc["route"]
+    lib = LIB_OF[spec["kind"]]
+    src = "conformer-view>" if spec["kind"] == "conf" else ""
+    res, outs, ntr = {}, [], 0
+    for enc in ("v2", "v1"):
+        try:
+            sym, out, n = _reget_one(libs, A, rc, enc, seed)
+        except HarnessError:
+            raise
+        except Exception as e:
+            sym, out, n = exc_sig(e), ("exc", type(e).__name__), 2
+        res[enc] = sym
+        outs.append(out)
+        ntr += n
+    ctx.count(evaluations=2, states=1, transitions=ntr, traces=2)
+    ctx.outcome(("reget", route, tuple(outs)))
+    ctx.nontrivial(("reget", spec["kind"], tuple(spec["shape"]), tuple(sorted(spec["over"].items())), route))
+    if res["v2"] and res["v2"] == res["v1"]:
+        todo = [("any", res["v2"])]
+    else:
+        todo = [(enc, res[enc]) for enc in ("v2", "v1") if res[enc]]
+    for enc, sym in todo:
+        ctx.violation(
+            f"{src}{lib}|enc={enc}|reget[{route}]:{sym}",
+            f"{spec['kind']} {tuple(spec['shape'])} {spec['over'] or ''}: stored, retrieved, the retrieved object changed in place, retrieved again ({route}): {sym}",
+            dict(rc, enc=enc),
+            repro=reget_repro(lib, route),
+        )
+
+
+def reget_repro(lib, route):
+    cls = "MoleculeLibrary" if lib == "mlib" else "ConformerLibrary"
+    mk = "ml.Molecule(['C', 'H'], name='stored')" if lib == "mlib" else "ml.ConformerEnsemble(['C', 'H'], n_conformers=2, name='stored')"
+    return "\n".join(
+        [
+            "import os, molli as ml",
+            f"p = '/tmp/c01_reget.{lib}'",
+            "if os.path.exists(p): os.unlink(p)",
+            f"obj = {mk}; obj.coords = 1.0",
+            f"lib = ml.{cls}(p, readonly=False)",
+            "with lib.writing(): lib['k'] = obj; lib['k2'] = obj",
+            "with lib.reading():",
+            "    r1 = lib['k']",
+            "    r1.name = 'mutated'; r1.coords[...] = 99; r1.atoms[0].label = 'mutated'; r1.attrib['x'] = 1",
+            f"    r2 = lib['k']          # route {route}: also try lib['k2'], a new session, ml.{cls}(p)",
+            "print(r2 is r1, r2.name, r2.coords.max(), r2.atoms[0].label, r2.attrib)   # expected: False stored 1.0 None {}",
+        ]
+    )
+
+
+# -------------------------------------------------------------------------------------------------
 def repro_code(case, lib, enc):
     A = alphabets(True)
     na, nb, nc = case["shape"]
@@ -856,6 +1116,10 @@ def _part(ctx, part):
     kind, payload = part
     if kind == "cases":
         eval_cases(ctx, A, payload, ctx.seed)
+    elif kind == "reget":
+        libs = Libs(ctx.scratch)
+        for rc in payload:
+            eval_reget(ctx, A, rc, ctx.seed, libs)
     else:
         libs = Libs(ctx.scratch)
         for sc in payload:
@@ -869,7 +1133,7 @@ def run(ctx):
         "bounded-exhaustive small-scope grammar: every field value alone and every pair of values of two different "
         "fields (atom, bond, molecule/ensemble records, coordinates/charges/weights value classes, conformer count), "
         "every shape 0..3 atoms x 0..3 bonds x 0..3 conformers, Conformer views, every put/read order of 1..3 objects "
-        "x handles x sessions; each case written to and read from real v2 and v1 MoleculeLibrary/ConformerLibrary files "
+        "x handles x sessions, get / mutate the retrieved object in place / get again over 6 retrieval routes and 2 write-side routes; each case written to and read from real v2 and v1 MoleculeLibrary/ConformerLibrary files "
         "and compared field by field with a snapshot taken by the harness's own walker; a case is non-trivial when the "
         "object has >= 1 atom and >= 1 field differs from the constructor defaults (or >= 2 objects for sequences)"
     )
@@ -880,14 +1144,18 @@ def run(ctx):
         "a Conformer view stored in a MoleculeLibrary reads back as a Molecule with the conformer's fields",
         "bonds never join an atom with itself; atoms of an ensemble are given through an atom list (the 0-atom ensemble through n_atoms=0)",
         "when v2 and v1 fail on the same case with the same symptom the violation is reported once with enc=any",
+        "repeated retrieval: an object read from a library is the caller's own (changing it in place must not change what any later retrieval of the same record returns - same session, new session, new handle, a byte-identical record under another key or in another file, items()); likewise changing the source object after it was stored does not change the stored record, and storing it again stores its new state",
     ]
     cases = gen_field_cases(A, thorough, ctx.seed) + gen_shape_cases(A, thorough)
     seqs = gen_seq_cases()
+    regets = gen_reget_cases(A, thorough)
     ctx.bound.update(
         {
             "field_cases": sum(1 for c in cases if not c["tag"].startswith("shape")),
             "shape_cases": sum(1 for c in cases if c["tag"].startswith("shape")),
             "sequence_cases": len(seqs),
+            "repeated_retrieval_cases": len(regets),
+            "repeated_retrieval_routes": READ_ROUTES + WRITE_ROUTES,
             "encodings": ["v2", "v1"],
             "alphabet_sizes": {d: len(v) for d, v in A.items()},
             "max_atoms": 3,
@@ -915,6 +1183,7 @@ def run(ctx):
     nchunk = 64 if thorough else 16
     parts = [("cases", cases[i::nchunk]) for i in range(nchunk)]
     parts = [p for p in parts if p[1]]
+    parts += [("reget", regets)]  # one part, fixed order
     parts += [("seq", seqs)]  # one part: the kept counterexample of a sequence signature is the first in order
     ctx.pmap(_part, parts)
 
@@ -923,6 +1192,9 @@ def replay(ctx, case):
     A = alphabets(True)
     if case.get("mode") == "sequence":
         eval_seq(ctx, A, case, ctx.seed)
+        return
+    if case.get("mode") == "reget":
+        eval_reget(ctx, A, {"mode": "reget", "spec": case["spec"], "route": case["route"], "n": case.get("n", 0)}, ctx.seed)
         return
     c = {"kind": case["kind"], "shape": case["shape"], "over": case["over"], "tag": case.get("tag") or "replay"}
     eval_cases(ctx, A, [c], ctx.seed)
